@@ -137,9 +137,9 @@ func ruleP17Rounding(p *Prog, r *Report) {
 		key := fmt.Sprintf("return#%d", i)
 		switch {
 		case knownNil(ret.Block(), e):
-			r.check(sameValue(ret.Results[0], resultOf(plus, 0)), rule, key+":rounded", p.instrPos(ret), "returns the rounded time", "does not return the rounded time")
+			r.check(sameValue(retResult(ret, 0), resultOf(plus, 0)), rule, key+":rounded", p.instrPos(ret), "returns the rounded time", "does not return the rounded time")
 		case knownNonNil(ret.Block(), e):
-			c, _ := callOf(ret.Results[0])
+			c, _ := callOf(retResult(ret, 0))
 			ok := c != nil && staticCallee(c) != nil && fnBase(staticCallee(c)) == "NewTimeTomorrow"
 			if ok {
 				h, _ := constInt(c.Common().Args[0])
@@ -250,13 +250,13 @@ func ruleP04Resume(p *Prog, r *Report) {
 	})
 	r.check(lo && hi, rule, "bounds", p.pos(f.Pos()), "positions outside 0..count-1 are 'not found'", "findNthEntry does not reject exactly the positions outside 0..count-1")
 	for i, ret := range returnsOf(f) {
-		okFlag, isB := constBool(ret.Results[1])
+		okFlag, isB := constBool(retResult(ret, 1))
 		if !isB {
 			continue
 		}
 		if okFlag {
 			good := false
-			if u, ok := strip(ret.Results[0]).(*ssa.UnOp); ok {
+			if u, ok := strip(retResult(ret, 0)).(*ssa.UnOp); ok {
 				if ia, ok := u.X.(*ssa.IndexAddr); ok && sameValue(ia.Index, idxVal) {
 					good = true
 				}
@@ -312,7 +312,7 @@ func ruleP04Resume(p *Prog, r *Report) {
 		okRet := false
 		okFlag := resultOf(c, 1)
 		for _, ret := range returnsOf(sum) {
-			if nm, recv, _, _ := methodCall(ret.Results[0]); nm == "Summary" {
+			if nm, recv, _, _ := methodCall(retResult(ret, 0)); nm == "Summary" {
 				if a2, isA := strip(recv).(*ssa.Alloc); isA {
 					for _, s := range storesTo(a2) {
 						if sameValue(s.val, resultOf(c, 0)) {
@@ -332,8 +332,8 @@ func ruleP04Resume(p *Prog, r *Report) {
 	// --summary given -> returned as is; conflicting flags -> error; nth not found -> error
 	sawText := false
 	for _, ret := range returnsOf(sum) {
-		if tag, _ := fieldTagOfLoad(ret.Results[0]); tag == "summary" {
-			sawText = isNilConst(ret.Results[1])
+		if tag, _ := fieldTagOfLoad(retResult(ret, 0)); tag == "summary" {
+			sawText = isNilConst(retResult(ret, 1))
 		}
 	}
 	r.check(sawText, rule, "Summary:explicit", p.pos(sum.Pos()), "an explicit --summary is returned as is", "an explicit --summary is not returned as is")
